@@ -39,6 +39,8 @@ pub async fn run(args: &Args, rep: &mut Reporter) {
             w.rename_folder = 6; // byte-identical rename events
             w.flags = 5;
             w.describe = 5;
+            // a copy of a folder (same secret ids in two folders) in every other history
+            w.copy_folder = if h % 2 == 1 { 2 } else { 0 };
             let mut s = match Session::start(&pristine, &hdir, rng.fork(h as u64), w).await {
                 Ok(s) => s,
                 Err(e) => {
